@@ -132,6 +132,7 @@ func TestC02_OracleSafety(t *testing.T) {
 		modelPool := new(big.Int)
 		modelSupply := big.NewInt(1_000_000)
 		competing, powerChangeBetween, resets := false, false, 0
+		exactThreshold := false
 		pendingVoteSincePowerChange := false
 		var nObserved int
 		issued := map[string]c02Claim{}
@@ -408,6 +409,53 @@ func TestC02_OracleSafety(t *testing.T) {
 				cast(t, pvs, txs)
 				judge(t)
 			},
+			// the subset of validators whose combined power is (one of the three) closest to the 66% line - on either side of
+			// it or exactly on it - votes the honest claim at the next nonce; nobody else votes in that block
+			"voteNearThreshold": func(t *rapid.T) {
+				pw, total, err := c.LastPowers()
+				if err != nil {
+					t.Fatalf("powers: %v", err)
+				}
+				type cand struct {
+					mask int
+					dist int64
+				}
+				var cands []cand
+				for mask := 1; mask < 1<<len(c.Vals); mask++ {
+					sum := int64(0)
+					for i, v := range c.Vals {
+						if mask&(1<<i) != 0 {
+							sum += pw[v.Val().String()]
+						}
+					}
+					d := sum*100 - 66*total
+					if d < 0 {
+						d = -d
+					}
+					cands = append(cands, cand{mask, d})
+				}
+				sort.Slice(cands, func(i, j int) bool {
+					if cands[i].dist != cands[j].dist {
+						return cands[i].dist < cands[j].dist
+					}
+					return cands[i].mask < cands[j].mask
+				})
+				pick := cands[rapid.IntRange(0, min(2, len(cands)-1)).Draw(t, "rank")]
+				cl := menu(prevCursor + 1)[0]
+				var pvs []pv
+				var txs [][]byte
+				for i, v := range c.Vals {
+					if pick.mask&(1<<i) != 0 {
+						pvs = append(pvs, pv{v, cl})
+						txs = append(txs, c.MustSign(v.Actor, mkMsg(v, cl)))
+					}
+				}
+				if pick.dist == 0 {
+					exactThreshold = true
+				}
+				cast(t, pvs, txs)
+				judge(t)
+			},
 			"emptyBlocks": func(t *rapid.T) {
 				if rapid.IntRange(0, 5).Draw(t, "toNext50?") == 0 {
 					// periodic validator-nonce catch-up happens at multiples of 50
@@ -513,6 +561,9 @@ func TestC02_OracleSafety(t *testing.T) {
 		}
 		if resets > 0 {
 			labels = append(labels, "nonceReset")
+		}
+		if exactThreshold {
+			labels = append(labels, "votersHoldExactly66Percent")
 		}
 		evid.Case(t.Name(), fmt.Sprintf("powers=%v %s", powers, trace), nt, labels, func() any { return map[string]any{"powers": powers, "history": log} })
 	})
